@@ -103,7 +103,8 @@ fn gen_payload(rng: &mut Rng, big_ok: bool) -> Vec<u8> {
 /// powers of two, so delimiters straddling such offsets are the hostile case.
 pub fn gen_boundary_stream(rng: &mut Rng) -> Vec<u8> {
     let mut s = Vec::new();
-    let boundary = *rng.pick(&[4096usize, 65_536, 65_536, 524_288, 8192, 131_072]);
+    // (the arena's largest regular chunk is 1 MiB; a reader block may be as large)
+    let boundary = *rng.pick(&[4096usize, 65_536, 65_536, 524_288, 8192, 131_072, 4096, 65_536, 131_072, 524_288, 1_048_576, 2_097_152]);
     let lead = rng.range(0, 3);
     for _ in 0..lead {
         let p = gen_payload(rng, false);
@@ -243,7 +244,9 @@ fn gen_reader_script(rng: &mut Rng, stream_len: usize) -> Vec<Step> {
                 for _ in 0..rng.range(0, 6) {
                     v.push(if rng.chance(1, 2) { Step::Deliver(rng.range(1, 9)) } else { Step::Fill });
                 }
-                for _ in 0..rng.range(1, 300) {
+                // (rarely: more interruptions in a row than any 16-bit retry counter holds)
+                let n = if !cfg!(miri) && rng.chance(1, 100) { rng.range(65_530, 70_000) } else { rng.range(1, 300) };
+                for _ in 0..n {
                     v.push(Step::Interrupted);
                 }
             }
@@ -728,7 +731,7 @@ pub fn run(ctx: &mut Ctx) {
             let stream = gen_stream(&mut rng, big_ok);
             let block = if stream.len() > 20_000 {
                 // long streams: large blocks only (tiny blocks would take millions of pumps)
-                *rng.pick(&[4096usize, 65_536, 70_000, 100_000, 131_072, hcobs::DEFAULT_BLOCK_SIZE, hcobs::DEFAULT_BLOCK_SIZE])
+                *rng.pick(&[4096usize, 65_536, 70_000, 100_000, 131_072, hcobs::DEFAULT_BLOCK_SIZE, hcobs::DEFAULT_BLOCK_SIZE, 1 << 20])
             } else {
                 BLOCKS[rng.usize_below(BLOCKS.len())].unwrap_or(hcobs::DEFAULT_BLOCK_SIZE)
             };
@@ -750,6 +753,12 @@ pub fn run(ctx: &mut Ctx) {
                     ctx.feature_n("stream.chunker.trailing_FE_at_end_of_stream", obs.trailing_fe_at_eof);
                     ctx.feature_n("stream.chunker.FE_FE_FD", obs.fe_fe_fd);
                     ctx.feature_n("stream.chunker.reader_interrupts", obs.interrupts);
+                    if obs.interrupts > 65_536 {
+                        ctx.feature("stream.chunker.more_than_65536_interrupts_in_one_stream");
+                    }
+                    if block == 1 << 20 && stream.len() > 2 << 20 {
+                        ctx.feature("stream.chunker.1MiB_blocks_on_a_stream_longer_than_2MiB");
+                    }
                     ctx.feature_n("stream.chunker.block_size_changed_between_pumps", obs.block_changes);
                     ctx.feature_n("stream.chunker.exposed_slices_checked", obs.expose.slices_checked);
                     if block < 2 {
@@ -771,7 +780,7 @@ pub fn run(ctx: &mut Ctx) {
 
     let do_reader_case = |ctx: &mut Ctx, kind: &str, idx: u64, stream: &[u8], rng: &mut Rng| {
         let block = if stream.len() > 20_000 {
-            *rng.pick(&[Some(4096usize), Some(65_536), Some(70_000), Some(100_000), Some(131_072), None, None])
+            *rng.pick(&[Some(4096usize), Some(65_536), Some(70_000), Some(100_000), Some(131_072), None, None, Some(1 << 20)])
         } else {
             BLOCKS[rng.usize_below(BLOCKS.len())]
         };
@@ -798,6 +807,12 @@ pub fn run(ctx: &mut Ctx) {
                 ctx.feature_n("stream.reader.judge_skipped", obs.judge_skipped);
                 ctx.feature_n("stream.reader.stopped_by_limit", obs.stopped);
                 ctx.feature_n("stream.reader.reader_interrupts", obs.interrupts);
+                if obs.interrupts > 65_536 {
+                    ctx.feature("stream.reader.more_than_65536_interrupts_in_one_stream");
+                }
+                if block == Some(1 << 20) && stream.len() > 2 << 20 {
+                    ctx.feature("stream.reader.1MiB_blocks_on_a_stream_longer_than_2MiB");
+                }
                 ctx.feature_n("stream.reader.exposed_slices_checked", obs.expose.slices_checked);
                 if matches!(block, Some(0) | Some(1)) {
                     ctx.feature("stream.reader.block_size_below_2");
